@@ -1,4 +1,5 @@
 import FastorModel.Proofs.Solve
+import FastorModel.Proofs.SolveInvPiv
 import FastorModel.Props.C11
 /-
   C12 — "For every square size, each implemented solve strategy (inverse-based, block and simple LU, and their pivoted forms) and
@@ -10,9 +11,9 @@ import FastorModel.Props.C11
   `forward_subs_impl` / `backward_subs_impl` (including the backward inner product that starts AT the diagonal and relies on the
   zero-initialised x), `get_lu_solve` and the `solve<SolveCompType::…>` dispatch:
     forward_subs_correct, backward_subs_correct, lu_solve_correct (any factorisation `L*U = P*A`, any bijection p),
-    solve_lu_correct (the four LU strategies, all n, via C11's lu_core_correct), solve_inv_correct.
-  Not proved: the floating-point residual bound (measured by the harness: a test); SimpleInvPiv's column scatter
-  (`reconstruct_colwise`) is tied by the exact correspondence only (partial: `solve_inv_correct` covers SimpleInv).
+    solve_lu_correct (the four LU strategies, all n, via C11's lu_core_correct), solve_inv_correct, solve_invPiv_correct
+    — i.e. `A*X = B` for all six strategies.
+  Not proved: the floating-point residual bound (measured by the harness: a test).
 -/
 namespace Fastor.C12
 open Fastor.LU Finset
@@ -111,6 +112,19 @@ theorem solve_inv_correct (ops : InvOps K) (inv : Nat → Mat K → Mat K) (gt :
   have e2 : ∀ m ∈ range n, (∑ k ∈ range n, A.get r k * (inv n A).get k m) * B.get m j = if r = m then B.get m j else 0 := by
     intro m hm; rw [hinv r m hr (mem_range.1 hm)]; split <;> simp
   rw [sum_congr rfl e2, sum_ite_eq]; simp [hr]
+
+/-- `solve<SolveCompType::SimpleInvPiv>(A, B)` — vector and matrix right-hand sides alike —
+`= matmul(reconstruct_colwise(inverse(P*A), p), B)`: if `inverse` returns a right inverse of `P*A` (C10) then `A * X = B`, every size,
+every number of columns.  (With the row scatter `reconstruct` that the matrix overload used before the repair, this is false.) -/
+theorem solve_invPiv_correct (ops : InvOps K) (inv : Nat → Mat K → Mat K) (gt : K → K → Bool) (n c : Nat) (A B : Mat K)
+    (hinv : ∀ i m, i < n → m < n →
+      ∑ k ∈ range n, (applyPivotV n A (pivotPerm gt n A)).get i k * (inv n (applyPivotV n A (pivotPerm gt n A))).get k m
+        = if i = m then 1 else 0)
+    (r j : Nat) (hr : r < n) (hj : j < c) :
+    ∑ k ∈ range n, A.get r k * (solve ops inv gt .simpleInvPiv n c A B).get k j = B.get r j := by
+  have pb := pivotPerm_bijection gt n A
+  simp only [solve]
+  exact solve_invPiv_solves n c A B _ _ pb.2.1 pb.2.2.1 pb.2.2.2 hinv r j hr hj
 
 /-! ### non-vacuity -/
 example : ∀ i, i < 9 → (luPublicV (execOps : InvOps ℚ) Fastor.C11.exGt .block 9 Fastor.C11.exA).U.get i i ≠ 0 := by decide +kernel
